@@ -34,14 +34,17 @@ Allowed(t) ==
   LET n == Fld(t, "anyorder", 0)
       ok(r) == r.status = "unspec" \/ (r.status = "ok" /\ t.outcome = "ok" /\ t.out = r.out) \/ (r.status = "error" /\ t.outcome = "error")
       cx == [Cx0 EXCEPT !.cache = Fld(t, "cache", <<>>)]
-  IN  IF Fld(t, "illformed", FALSE) THEN t.outcome = "error"      \* a template that cannot parse never renders
+  IN  IF Fld(t, "noref", FALSE) THEN TRUE       \* bindings outside the reference's value universe (Go structs): no expectation
+      ELSE IF Fld(t, "illformed", FALSE) THEN t.outcome = "error"      \* a template that cannot parse never renders
       ELSE IF n = 0 THEN ok(Render(cx, t.prog, EnvOf(t.env)))
       ELSE \E p \in Perms(n) : ok(Render([cx EXCEPT !.perm = p], t.prog, EnvOf(t.env)))
-Decided(t) == Fld(t, "illformed", FALSE) \/ Render([Cx0 EXCEPT !.perm = <<1, 2, 3>>, !.cache = Fld(t, "cache", <<>>)], t.prog, EnvOf(t.env)).status # "unspec"
+Decided(t) == ~Fld(t, "noref", FALSE) /\ (Fld(t, "illformed", FALSE) \/ Render([Cx0 EXCEPT !.perm = <<1, 2, 3>>, !.cache = Fld(t, "cache", <<>>)], t.prog, EnvOf(t.env)).status # "unspec")
 
 Why(t) ==
   IF t.outcome \in {"panic", "fatal", "timeout"} THEN "the render did not return"
   ELSE IF ~SamePairs(t.before, t.after) THEN "rendering changed the caller's bindings"
+  \* (the fingerprints also tell a Drop from its value, a typed from a generic slice, and see a slice's spare capacity)
+  ELSE IF Fld(t, "beforesig", "") # Fld(t, "aftersig", "") THEN "rendering changed the caller's bindings (as Go values)"
   ELSE IF ~SamePairs(t.before, t.env) THEN "the bindings were changed by an earlier render"
   ELSE IF Known(Key(t)) /\ Get(Key(t)) # Res(t) THEN "the same template and bindings gave a different result (" \o t.entry \o ")"
   ELSE IF ~Allowed(t) THEN "the result is not the one the reference semantics allows"
